@@ -71,17 +71,20 @@ theorem C20_workday_beyond_scan_counterexample :
 /-! ### Part 2 — arming -/
 
 /-- **time zone**: with offset `off` (explicit, or 0 when none was set) a successful arm computes
-the EARLIEST matching local instant `nl` strictly after the local start `max(now, target) + off`,
-stores the UTC target `nl − off`, and that target is strictly after both the current UTC second
-and the previous target. -/
-theorem C20_tz (a : Alarm) (e : Env) (hs : a.sod < D) (hr : InRange (max e.sec a.target) a.offset)
+the EARLIEST matching local instant `nl` strictly after the local start `base + off`, where
+`base = max(now, pending target, last served instant)`; it stores the UTC target `nl − off`, and
+that target is strictly after the current UTC second, the previous target and the last served instant. -/
+theorem C20_tz (a : Alarm) (e : Env) (hs : a.sod < D) (hr : InRange (a.base e) a.offset)
     (hok : (activeTimer a e).2 = true) :
-    ∃ nl, Earliest (Matches a e.cal) (addOff (max e.sec a.target) a.offset) nl ∧
+    ∃ nl, Earliest (Matches a e.cal) (addOff (a.base e) a.offset) nl ∧
       (((activeTimer a e).1.target : Nat) : Int) + a.offset = nl ∧
       e.sec < (activeTimer a e).1.target ∧ a.target < (activeTimer a e).1.target ∧
-      (addOff (max e.sec a.target) a.offset : Int) = (max e.sec a.target : Nat) + a.offset := by
+      a.lastServed < (activeTimer a e).1.target ∧
+      (addOff (a.base e) a.offset : Int) = (a.base e : Nat) + a.offset := by
   obtain ⟨nl, T, d, _, heq, h1, h2, _, h4⟩ := activeTimer_spec a e hs hr hok
-  refine ⟨nl, h4, by rw [heq]; exact h1, by rw [heq]; simp only [armed_target]; omega, by rw [heq]; simp only [armed_target]; omega, ?_⟩
+  obtain ⟨g1, g2, g3⟩ := base_ge a e
+  refine ⟨nl, h4, by rw [heq]; exact h1, by rw [heq]; simp only [armed_target]; omega, by rw [heq]; simp only [armed_target]; omega,
+    by rw [heq]; simp only [armed_target]; omega, ?_⟩
   obtain ⟨r1, r2, _⟩ := hr
   simp only [addOff, U32_eq]; omega
 
@@ -90,12 +93,13 @@ monotonic clock, counted from the arming moment) is exactly the wall-clock dista
 target measured at arming: `d = 1000·(target − now_sec) − ⌊usec/1000⌋`, i.e. wall-now(ms) + d =
 target(ms).  (Holds with the 64-bit conversion of patches/C20-01.) -/
 theorem C20_delay_not_short (a : Alarm) (e : Env) (hs : a.sod < D)
-    (hr : InRange (max e.sec a.target) a.offset) (hok : (activeTimer a e).2 = true) :
+    (hr : InRange (a.base e) a.offset) (hok : (activeTimer a e).2 = true) :
     ∃ d, (activeTimer a e).1.timer = some (e.monoMs + d) ∧
       e.sec < (activeTimer a e).1.target ∧
       d + e.ms = ((activeTimer a e).1.target - e.sec) * 1000 ∧
       (e.wallMs / 1000 < U32 → e.wallMs + d = (activeTimer a e).1.target * 1000) := by
   obtain ⟨nl, T, d, _, heq, _, h2, h3, _⟩ := activeTimer_spec a e hs hr hok
+  obtain ⟨g1, _, _⟩ := base_ge a e
   refine ⟨d, by rw [heq]; rfl, by rw [heq]; simp only [armed_target]; omega, by rw [heq]; exact h3, ?_⟩
   intro hw
   rw [heq]; simp only [armed_target]
@@ -125,17 +129,22 @@ theorem C20_targets_strictly_increase (a : Alarm) (e : Env) (hcls : a.cls ≠ .o
   · intro hrun
     rw [hex] at hrun ⊢
     rcases activeTimer_cases { a with timer := none, st := .inited, nFired := a.nFired + 1, lastServed := a.target } e with ⟨hok, _, _⟩ | ⟨_, heq⟩
-    · obtain ⟨nl, T, d, _, heq, _, h2, _, _⟩ :=
-        activeTimer_spec { a with timer := none, st := .inited, nFired := a.nFired + 1, lastServed := a.target } e hs hr hok
-      rw [heq]; simp only [armed_target] at h2 ⊢; omega
+    · have hbase : Alarm.base { a with timer := none, st := .inited, nFired := a.nFired + 1, lastServed := a.target } e
+          = max e.sec a.target := by unfold Alarm.base; simp only; omega
+      obtain ⟨nl, T, d, _, heq, _, h2, _, _⟩ :=
+        activeTimer_spec { a with timer := none, st := .inited, nFired := a.nFired + 1, lastServed := a.target } e hs
+          (by rw [hbase]; exact hr) hok
+      rw [heq]; rw [hbase] at h2; simp only [armed_target] at h2 ⊢; omega
     · rw [heq] at hrun; simp at hrun
   · intro hnr
     exact (expire_inv a e).idle hnr
 
 /-- **disable(); enable() computes from the current time** (patches/C20-02): after disable()
 the next enable() arms the earliest matching instant strictly after NOW, whatever target was
-pending before. -/
+pending before (`hls`: the wall clock is not behind the last instant already served — otherwise
+the base is that instant, patches/C20-07). -/
 theorem C20_enable_after_disable_earliest (a : Alarm) (e : Env) (hrun : a.st = .running) (hs : a.sod < D)
+    (hls : a.lastServed ≤ e.sec)
     (hr : InRange e.sec a.offset) (hok : (enable (disable a).1 e).2 = true) :
     ∃ nl, Earliest (Matches a e.cal) (addOff e.sec a.offset) nl ∧
       (((enable (disable a).1 e).1.target : Nat) : Int) + a.offset = nl := by
@@ -145,16 +154,17 @@ theorem C20_enable_after_disable_earliest (a : Alarm) (e : Env) (hrun : a.st = .
   unfold enable at hok ⊢
   simp only [if_true] at hok ⊢
   generalize hb : subscribe { a with subs := if a.cls = .workday then 0 else a.subs, st := .inited, timer := none, target := 0 } = b at hok ⊢
-  have hb' : b.cls = a.cls ∧ b.sod = a.sod ∧ b.mask = a.mask ∧ b.wd = a.wd ∧ b.target = 0 ∧ b.offset = a.offset := by
+  have hb' : b.cls = a.cls ∧ b.sod = a.sod ∧ b.mask = a.mask ∧ b.wd = a.wd ∧ b.target = 0 ∧ b.offset = a.offset ∧
+      b.lastServed = a.lastServed := by
     rw [← hb]; unfold subscribe Alarm.offset; split <;> simp
-  obtain ⟨b1, b2, b3, b4, b5, b6⟩ := hb'
+  obtain ⟨b1, b2, b3, b4, b5, b6, b7⟩ := hb'
   have hok' : (activeTimer b e).2 = true := by
     cases h : (activeTimer b e).2 with
     | true => rfl
     | false => simp [h] at hok
-  have hmax : max e.sec b.target = e.sec := by rw [b5]; omega
-  have hr' : InRange (max e.sec b.target) b.offset := by rw [hmax, b6]; exact hr
-  obtain ⟨nl, he, ht, _, _, _⟩ := C20_tz b e (by rw [b2]; exact hs) hr' hok'
+  have hmax : b.base e = e.sec := by unfold Alarm.base; rw [b5, b7]; omega
+  have hr' : InRange (b.base e) b.offset := by rw [hmax, b6]; exact hr
+  obtain ⟨nl, he, ht, _, _, _, _⟩ := C20_tz b e (by rw [b2]; exact hs) hr' hok'
   refine ⟨nl, ?_, ?_⟩
   · rw [hmax, b6] at he
     unfold Earliest Matches at he ⊢
@@ -237,32 +247,43 @@ theorem C20_world_callbacks_enabled (sts : List WStep) (w : World) (he : wExec w
     ∀ ev, ev ∈ w.log → ev.wasRunning = true :=
   fun ev h => ((wExec_inv sts wInit w wInit_inv he).log ev h).1
 
--- OPEN (false of the code, see the counterexample below): in every world execution the instants one
--- alarm serves strictly increase — `∀ ev ∈ w.log, ev.prev < ev.instant`.
-/-- **once per instant**, partial: the instant a callback stands for is strictly later than the one
-the same alarm served before, PROVIDED the alarm's ghost flags are clear: no arm ever started from a
-base before the last served instant (`early`: refresh() / disable()+enable() while the wall clock is
-still behind an instant already served — an early wake-up window or a wall clock set back) and no arm
-happened outside the no-wrap range (`wrapped`).  Holds with callbacks calling any API. -/
-theorem C20_once_per_instant_partial (sts : List WStep) (w : World) (he : wExec wInit sts = some w) :
-    ∀ ev, ev ∈ w.log → ev.flagsClear = true → ev.prev < ev.instant :=
+/-- **once per instant** — full strength, every world execution: callbacks calling refresh() /
+disable() / enable() on any alarm, early wake-ups (monotonic clock ahead of the wall clock), wall-clock
+adjustments either way, cleanup / re-initialisation, calendar updates, destruction of other alarms.
+The instant a callback stands for is strictly later than the instant the same alarm served before.
+(`ev.inRange`: no arm of this alarm ever left the no-wrap range `InRange` — the end of the uint32 epoch
+range, as in every arming theorem above.)  Holds because of patches/C20-07: the last served instant is
+part of the base of every search. -/
+theorem C20_once_per_instant (sts : List WStep) (w : World) (he : wExec wInit sts = some w) :
+    ∀ ev, ev ∈ w.log → ev.inRange = true → ev.prev < ev.instant :=
   fun ev h => ((wExec_inv sts wInit w wInit_inv he).log ev h).2
 
-/-- … and in every reachable world an enabled alarm with clear flags is armed for an instant strictly
-after the last one it served (the extension of `C20_targets_strictly_increase` to scripted histories) -/
+/-- … and in every reachable world an enabled alarm is armed for an instant strictly after the last
+one it served (the extension of `C20_targets_strictly_increase` to scripted histories) -/
 theorem C20_world_targets_increase (sts : List WStep) (w : World) (he : wExec wInit sts = some w)
-    (j : Nat) (a : Alarm) (hg : w.get j = some a) (hr : a.st = .running) (h1 : a.early = false) (h2 : a.wrapped = false) :
+    (j : Nat) (a : Alarm) (hg : w.get j = some a) (hr : a.st = .running) (h2 : a.wrapped = false) :
     a.lastServed < a.target :=
-  ((wExec_inv sts wInit w wInit_inv he).alarms j a hg).k hr h1 h2
+  ((wExec_inv sts wInit w wInit_inv he).alarms j a hg).k hr h2
 
-/-- the full statement is false: monotonic clock 5 ms ahead of the wall clock, the callback calls
-refresh() on its own alarm.  The timer fires at 00:01:39.995 for 00:01:40; refresh() recomputes from
-"now" and arms 00:01:40 again; 5 ms later the SAME instant is served a second time. -/
+/-- the history that used to serve one instant twice: monotonic clock 5 ms ahead, the callback calls
+refresh() on its own alarm.  The timer fires at 00:01:39.995 for 00:01:40 (86400100); refresh() now
+starts from the served instant and arms the next day; 5 ms later nothing is due. -/
+theorem C20_refresh_in_early_callback_fixed :
+    let pre : List WStep := [.op (.new 0 .weekly [.refresh 0]), .op (.init 0 100 [true, true, true, true, true, true, true] true),
+                  .op (.tz 0 0), .op (.wall 86400000000), .op (.enable 0), .op (.mono 5), .op (.adv 99995), .fire 0, .op (.adv 5)]
+    (wExec wInit pre).map (fun w => (w.log.map (·.instant), (w.get 0).map (·.target), canFire w 0, anyDue w))
+      = some ([86400100], some 86486500, false, false) := by decide
+
+-- the AS-FOUND code (before patches/C20-07) violates the statement:
+/-- inside that refresh() the as-found base is max(now, target = 0) = 00:01:39: the search returns
+00:01:40 — the instant that has just been served — and arms it again (replayed on the real code by
+corpus/C20/06: two callbacks for one instant); the patched base returns the next day. -/
 theorem C20_refresh_in_early_callback_counterexample :
-    (wExec wInit [.op (.new 0 .weekly [.refresh 0]), .op (.init 0 100 [true, true, true, true, true, true, true] true),
-                  .op (.tz 0 0), .op (.wall 86400000000), .op (.enable 0), .op (.mono 5), .op (.adv 99995), .fire 0,
-                  .op (.adv 5), .fire 0]).map (fun w => w.log.map (fun ev => (ev.instant, ev.flagsClear)))
-      = some [(86400100, false), (86400100, true)] := by decide
+    let a : Alarm := { cls := .weekly, sod := 100, mask := 127, st := .inited, tzSet := true, off := 0,
+                       target := 0, lastServed := 86400100 }
+    let e : Env := { wallMs := 86400099995, monoMs := 100000 }
+    calcNext a e.cal (addOff (a.baseAsFound e) a.offset) = some a.lastServed ∧
+    calcNext a e.cal (addOff (a.base e) a.offset) = some 86486500 := by decide
 
 /-! ### Part 5 — cron (reference semantics; ccronexpr itself is tied by correspondence only) -/
 
